@@ -869,12 +869,26 @@ where
         stream_rx: &mut ReadHalf<Stream>,
         buf: &mut T,
     ) -> Result<(), ConnectionEvent> {
-        loop {
-            match stream_rx.read_exact(buf.as_mut()).await {
-                // The stream read succeeded. Return to the caller
-                // so that it can process the bytes written to the
-                // buffer.
-                Ok(_size) => return Ok(()),
+        // Keep track of how much has been read so far: when a recoverable
+        // error interrupts the read part-way, the retry has to continue
+        // behind the octets already taken off the stream rather than start
+        // over (and lose them, which would desynchronise the framing).
+        let buf = buf.as_mut();
+        let mut filled = 0;
+        while filled < buf.len() {
+            match stream_rx.read(&mut buf[filled..]).await {
+                // The stream ended inside the data we need.
+                Ok(0) => {
+                    return match Self::process_io_error(
+                        io::ErrorKind::UnexpectedEof.into(),
+                    ) {
+                        ControlFlow::Continue(_) => continue,
+                        ControlFlow::Break(err) => Err(err),
+                    };
+                }
+
+                // Part of the stream read succeeded.
+                Ok(size) => filled += size,
 
                 Err(err) => match Self::process_io_error(err) {
                     ControlFlow::Continue(_) => continue,
@@ -882,6 +896,10 @@ where
                 },
             }
         }
+
+        // The stream read succeeded. Return to the caller so that it can
+        // process the bytes written to the buffer.
+        Ok(())
     }
 
     /// Handle I/O errors by deciding whether to log them, and whethr to
